@@ -11,14 +11,15 @@ import (
 // the message - travels on whatever the caller's dial function returned, in clear for a plain TCP dialer.
 // Obligation: mail.Client.DialToSMTPClientWithContext#at[implicit-tls-means-tls-transport].
 func TestVerifWitnessC07ImplicitTLSWithCustomDialer(t *testing.T) {
-	srv := &vServer{Greeting: "220 ready", Respond: vOK}
+	srv := &vServer{Greeting: "220 ready\r\n", Respond: vOK}
 	c, err := NewClient("mx.example.test", WithSSL(), WithDialContextFunc(srv.Dial()), WithHELO("client.example.test"), WithTimeout(2*time.Second))
 	if err != nil {
 		t.Fatal(err)
 	}
 	ctx, cancel := context.WithTimeout(context.Background(), 3*time.Second)
 	defer cancel()
-	_ = c.DialWithContext(ctx)
+	derr := c.DialWithContext(ctx)
+	t.Logf("dial: %v", derr)
 	_ = c.Close()
 	srv.mu.Lock()
 	defer srv.mu.Unlock()
